@@ -27,13 +27,30 @@ SPEC = {
     "modules": ["HC.Props.C01"],
     "extracted": ["Guards", "Consts", "H11Tables", "ReqGlue", "Runtime", "C04Sites"],
     "technique": "Lean 4: scope construction law (target split, method, headers), per-event forwarding lemmas and a transducer theorem for runs of body events (concatenation / one final message / segmentation independence at the glue), filter_pseudo_headers spec, one instance per request (with C06 serial); HTTP/2 END TO END: a contents-carrying wrapper of the C04 receive-side model of H2Protocol (HC/Proto/H2Deliver.lean: header lists, DATA payloads, flow-controlled lengths), frame conditions for every operation of that model, and delivery theorems over every run (h2_request_delivered, h2_request_end_to_end, h2_data_acked) composed with the HTTPStream transducer — tied by direct drive of H11Protocol with h11 taps, by direct drive of the real H2Protocol (tap log replayed through the composed model: scopes, http.request messages, acknowledgements), and by end-to-end runs on both workers over every two-way split",
-    "level_text": "Proved in Lean: the HTTP/1 scope is exactly (upper-cased method, target split at the first '?' with nothing lost, version, header list as h11 reports it or raw when configured); a WebSocket scope is chosen iff GET + Upgrade: websocket + Connection upgrade token; on HTTP/2 the header list is host (from :authority, else host) followed by the non-pseudo, non-host headers in order; every Data / EndOfMessage event of the parser is forwarded to the live instance as exactly one http.request message carrying those bytes; for every chunking of the body the messages concatenate to the body with exactly one more_body=False message iff the parser reported completion, independently of how the parser cut the bytes; handling a Request spawns exactly one instance, and (C06) only when none is live; the server-name decision (host-header test extracted from utils.valid_server_name) is the same for the raw and the lower-cased header list, so configuring raw headers never changes whether an instance is started; on HTTP/2 every DataReceived acknowledges exactly its flow-controlled length whether or not its stream still exists (call counts extracted from _handle_events), so the connection receive window is conserved over any sequence of DATA events.  HTTP/2 END TO END (theorems h2_request_delivered / h2_request_end_to_end / h2_data_acked): for every run of the receive side of H2Protocol - h2 events of any number of streams, PRIORITY / WINDOW_UPDATE / SETTINGS, the applications' stream_send calls and the send task's iterations in any order, the libraries answering as they may - in which a stream not known before receives RequestReceived(headers), then DataReceived events, then StreamEnded iff the client completed the body, the request being one _create_stream accepts and the stream not being removed in between (no RST_STREAM for it, connection not closed, its application not finished): exactly one stream object is created for it, its scope is (:method upper-cased, :path split at the first '?' with nothing lost, header list = filter_pseudo_headers(headers), HTTP version 2), and it is handed exactly one Body per DATA event carrying that event's payload, in order, then EndBody iff StreamEnded came - so the http.request messages concatenate to the DATA payloads with exactly one final message iff the client ended the stream, whatever the other streams did; and in EVERY run (reset streams, finished applications, closed connection included) every DATA event is acknowledged exactly once with its flow-controlled length, in order (the per-path call counts of the receive-side model = the extracted ones: h2_ack_paths).  The argument lists of Request(...), Body(...), the header loop of _create_stream are extracted and pinned.  The composed model is tied to the code by direct drive of the real H2Protocol with real HTTPStreams (frame-level sessions: several requests with bodies in several DATA frames incl. empty and padded ones, frames of the streams interleaved, applications answering early, resets): the tap log is replayed through it and the scopes, the http.request messages each application was put, the acknowledgements (stream, amount) and the abstract request flags must agree; where the theorem's hypotheses hold its conclusion is evaluated on the implementation's own observations.  That the parsers' events carry the client's bytes for every segmentation is library behaviour: sampled end-to-end on both workers (HTTP/1.0, 1.1, 2; content-length, chunked, DATA frames; every two-way split of requests <= 300 bytes, random k-way and one-byte-per-read splits; eager, lazy and slow consumers with more chunks than the bounded app queue holds; raw headers on/off x server names set/unset with the client's own spelling of Host; HTTP/2 connections with several requests, applications answering before or without reading the body and late uploads; requests that last longer than a small keep_alive_timeout - uploads in pieces with pauses, late consumers, abandoned uploads - over HTTP/1.0, HTTP/1.1 content-length / chunked / with an h2c offer that is not taken up, cleartext HTTP/2 with prior knowledge with the preface, SETTINGS, HEADERS and first DATA in one read or cut anywhere, h2c upgrade and ALPN h2).",
+    "level_text": "Proved in Lean: the HTTP/1 scope is exactly (upper-cased method, target split at the first '?' with nothing lost - the expressions HTTPStream.handle(Request) puts under raw_path / query_string (and percent-decodes for path) are extracted from the source: target_split_spec, so no other character of the target ('#', ';', a leading '//', 'scheme://host', a second '?') is interpreted -, version, header list as h11 reports it or raw when configured); a WebSocket scope is chosen iff GET + Upgrade: websocket + Connection upgrade token; on HTTP/2 the header list is host (from :authority, else host) followed by the non-pseudo, non-host headers in order; every Data / EndOfMessage event of the parser is forwarded to the live instance as exactly one http.request message carrying those bytes; for every chunking of the body the messages concatenate to the body with exactly one more_body=False message iff the parser reported completion, independently of how the parser cut the bytes; handling a Request spawns exactly one instance, and (C06) only when none is live; the server-name decision (host-header test extracted from utils.valid_server_name) is the same for the raw and the lower-cased header list, so configuring raw headers never changes whether an instance is started; on HTTP/2 every DataReceived acknowledges exactly its flow-controlled length whether or not its stream still exists (call counts extracted from _handle_events), so the connection receive window is conserved over any sequence of DATA events.  HTTP/2 END TO END (theorems h2_request_delivered / h2_request_end_to_end / h2_data_acked): for every run of the receive side of H2Protocol - h2 events of any number of streams, PRIORITY / WINDOW_UPDATE / SETTINGS, the applications' stream_send calls and the send task's iterations in any order, the libraries answering as they may - in which a stream not known before receives RequestReceived(headers), then DataReceived events, then StreamEnded iff the client completed the body, the request being one _create_stream accepts and the stream not being removed in between (no RST_STREAM for it, connection not closed, its application not finished): exactly one stream object is created for it, its scope is (:method upper-cased, :path split at the first '?' with nothing lost, header list = filter_pseudo_headers(headers), HTTP version 2), and it is handed exactly one Body per DATA event carrying that event's payload, in order, then EndBody iff StreamEnded came - so the http.request messages concatenate to the DATA payloads with exactly one final message iff the client ended the stream, whatever the other streams did; and in EVERY run (reset streams, finished applications, closed connection included) every DATA event is acknowledged exactly once with its flow-controlled length, in order (the per-path call counts of the receive-side model = the extracted ones: h2_ack_paths).  The argument lists of Request(...), Body(...), the header loop of _create_stream are extracted and pinned.  The composed model is tied to the code by direct drive of the real H2Protocol with real HTTPStreams (frame-level sessions: several requests with bodies in several DATA frames incl. empty and padded ones, frames of the streams interleaved, applications answering early, resets): the tap log is replayed through it and the scopes, the http.request messages each application was put, the acknowledgements (stream, amount) and the abstract request flags must agree; where the theorem's hypotheses hold its conclusion is evaluated on the implementation's own observations.  That the parsers' events carry the client's bytes for every segmentation is library behaviour: sampled end-to-end on both workers (HTTP/1.0, 1.1, 2; content-length, chunked, DATA frames; every two-way split of requests <= 300 bytes, random k-way and one-byte-per-read splits; eager, lazy and slow consumers with more chunks than the bounded app queue holds; raw headers on/off x server names set/unset with the client's own spelling of Host; HTTP/2 connections with several requests, applications answering before or without reading the body and late uploads; requests that last longer than a small keep_alive_timeout - uploads in pieces with pauses, late consumers, abandoned uploads - over HTTP/1.0, HTTP/1.1 content-length / chunked / with an h2c offer that is not taken up, cleartext HTTP/2 with prior knowledge with the preface, SETTINGS, HEADERS and first DATA in one read or cut anywhere, h2c upgrade and ALPN h2).",
     "level_note": "Trusted: Lean kernel; models HC/Proto/H11.lean, HC/Stream/Http.lean, HC/Pure/Utils.lean (differential runs); h11 / h2 / hpack parsing and the asyncio Queue / trio memory channel FIFO semantics are library behaviour (sampled); urllib.parse.unquote is compared with an independent percent-decoder written in the harness; the receive-side model of H2Protocol HC/Proto/H2Recv.lean is C04's (tied by its differential run) and its contents wrapper HC/Proto/H2Deliver.lean is tied by the direct-drive comparison here; what h2 reports in RequestReceived / DataReceived for the client's bytes (HPACK, padding, segmentation) is library behaviour (sampled end to end); the bounded application queue between HTTPStream and the application is asyncio's / trio's (sampled end to end with more chunks than it holds).",
-    "rule": "request kinds x framing x body-size class x split class x consumer class x protocol x worker x configuration (raw headers, server names); HTTP/2 connection sessions: mode x consumer x upload timing x body-size class; slow sessions: entry path (h1.0, h1.1 cl/chunked/h2c offer with body, prior knowledge, h2c upgrade, ALPN) x worker x cut of the first bytes x consumer x (upload longer than the keep-alive time-out or not) x completed/abandoned; every two-way split of sessions <= 300 bytes is enumerated (exhaustive for those sessions); distinct = (protocol, framing, pipeline length, body-size class, split class, consumer class); non-trivial = non-empty body or a pipeline",
+    "rule": "request targets (origin-form with and without query / percent-escapes, leading '//', '#', ';', absolute-form, '*', a second '?', empty path before '?': a deterministic corpus of every such target directly and end to end on HTTP/1.0, 1.1 and 2, both workers, + sampling) x request kinds x framing x body-size class x split class x consumer class x protocol x worker x configuration (raw headers, server names); HTTP/2 connection sessions: mode x consumer x upload timing x body-size class; slow sessions: entry path (h1.0, h1.1 cl/chunked/h2c offer with body, prior knowledge, h2c upgrade, ALPN) x worker x cut of the first bytes x consumer x (upload longer than the keep-alive time-out or not) x completed/abandoned; every two-way split of sessions <= 300 bytes is enumerated (exhaustive for those sessions); distinct = (protocol, framing, pipeline length, body-size class, split class, consumer class); non-trivial = non-empty body or a pipeline",
     "trusted": ["h11 0.16 / h2 4.4.1 parsers", "asyncio.Queue and trio memory channels"],
     "partial": ["methods are compared after ASCII upper-casing; non-UTF-8 percent-escapes are compared through Python's replacement policy"],
     "assumptions": [],
 }
+
+
+# Request targets beyond the everyday origin-form: everything h11 (`request-target = 1*VCHAR`) and h2 (`:path` not empty)
+# hand on.  The statement quantifies over "all targets": the scope must report the client's bytes up to the first `?` as raw
+# path (percent-decoded as path) and everything behind it as query string - no other character is a delimiter to a server:
+# a leading `//` is not a network location, `scheme://host` (absolute-form, RFC 9112 3.2.2) is not stripped, `#` does not
+# start a fragment, `;` no parameters, a second `?` belongs to the query.
+UNUSUAL_TARGETS = [
+    "//cdn/assets/app.js?v=1", "//host.example/p", "//", "///x//y/?//z",                     # leading `//`
+    "/search?q=a#b", "/docs/page#section?x=1", "/#", "/a%23b#c%23d",                        # `#`
+    "/a;p=1/b;q?x;y=1", "/;", "/p;jsessionid=1?k",                                           # `;`
+    "http://host.example/p?q=1", "http://x/", "https://u:p@h.example:8443/a%20b?c=d#e", "HTTP://H/?", "ftp://h",   # absolute-form
+    "?x=1", "?", "??",                                                                      # empty path before `?`
+    "/x??y", "/a?b?c=d", "/?a=/b/../c?&d=#?",                                                # a second `?`
+    "/a/../b/./c", "/%2F%2Fcdn/x?%3F=%23", "/:80/@x", "/a@b:c/?d@e:f", "/\\h\\p?\\q", "/[::1]/{x}|^`?[]",
+]
+C01_TARGETS = HS.TARGETS + UNUSUAL_TARGETS
 
 
 def pct_decode(raw: bytes) -> str:
@@ -302,6 +319,23 @@ def cfg_corpus() -> Tuple[List[dict], List[dict]]:
     return direct, e2e
 
 
+def target_corpus() -> Tuple[List[dict], List[dict]]:
+    """deterministic: every unusual request target (and `OPTIONS *`), handed to `H11Protocol` directly (two requests on one
+    connection, over one / random / one-byte reads) and end to end on HTTP/1.0, 1.1 and 2, both workers"""
+    direct, e2e = [], []
+    app = {"when": "after_body", "status": 200, "chunks": ["ok"], "content_length": True, "crash": None, "ws": "close"}
+    for i, t in enumerate(UNUSUAL_TARGETS + ["*"]):
+        post = i % 2 == 1 and t != "*"
+        req = {"kind": "body_cl" if post else "plain", "method": "OPTIONS" if t == "*" else ("POST" if post else "GET"), "target": t,
+               "headers": [["Host", "x"], ["X-T", str(i)]], "version": "1.1", "body": "t=%d" % i if post else "", "chunks": None}
+        direct.append({"family": "direct", "requests": [dict(req), dict(req, headers=[["Host", "x"]])], "apps": [app, app],
+                       "split": ["one", "random", "bytewise"][i % 3], "seed": 500 + i, "cfg": {}})
+        for j, proto in enumerate(("1.0", "1.1", "2")):
+            e2e.append({"family": "e2e", "proto": proto, "worker": ("asyncio", "trio")[(i + j) % 2], "consumer": "eager", "seed": 600 + 3 * i + j,
+                        "requests": [dict(req, version="1.0" if proto == "1.0" else "1.1")], "cfg": {}, "splits": "few"})
+    return direct, e2e
+
+
 def timing_corpus() -> List[dict]:
     """deterministic: read time-out set, more body messages than the bounded application queue holds, and an application
     that starts to receive later than the time-out - the whole request is sent at once, so the body must arrive whole"""
@@ -327,7 +361,7 @@ def gen_e2e_session(ctx: Ctx) -> dict:
     rng = ctx.rng
     proto = rng.choice(["1.1", "1.1", "1.0", "2", "2"])
     n = 1 if proto == "1.0" else rng.choice([1, 1, 2, 3])
-    opts = {"big": rng.random() < 0.35, "weights": [5, 5, 5 if proto != "2" else 0, 0, 0, 0, 1, 0, 0, 0, 0]}
+    opts = {"big": rng.random() < 0.35, "weights": [5, 5, 5 if proto != "2" else 0, 0, 0, 0, 1, 0, 0, 0, 0], "targets": C01_TARGETS}
     reqs = [HS.gen_request(rng, i, opts) for i in range(n)]
     for r in reqs:
         if proto == "1.0":
@@ -384,6 +418,8 @@ def check_e2e(ctx: Ctx, sessions: List[dict], all_two_way: bool) -> None:
         if all_two_way and L <= 300:
             splits += [[blob[:k], blob[k:]] for k in range(1, L)]
             ctx.extra["two_way_splits_exhaustive_sessions"] = ctx.extra.get("two_way_splits_exhaustive_sessions", 0) + 1
+        elif case.get("splits") == "few":          # corpus sessions whose subject is the contents, not the segmentation
+            splits.append(HS.split_bytes(rng, blob, "random"))
         else:
             splits += [HS.split_bytes(rng, blob, "random") for _ in range(3)]
             if L <= 400:
@@ -415,7 +451,7 @@ def check_e2e(ctx: Ctx, sessions: List[dict], all_two_way: bool) -> None:
                 ctx.count("e2e.timing", f"read_timeout={ccfg.get('read_timeout')} queue={ccfg.get('max_app_queue_size', 'default')} consumer={case['consumer']}")
                 ctx.count("e2e.cfg", f"raw={int(raw)} names={int(bool(ccfg.get('server_names')))}")
             short = {"family": "e2e", "proto": case["proto"], "worker": case["worker"], "consumer": case["consumer"], "requests": reqs,
-                     "reads": [len(x) for x in reads], "seed": case["seed"], "cfg": ccfg}
+                     "reads": [len(x) for x in reads], "seed": case["seed"], "cfg": ccfg, **({"splits": case["splits"]} if case.get("splits") else {})}
             if o["error"] or o["loop_errors"] or o["client_error"]:
                 ctx.violation("handler_exception", short, {k: o[k] for k in ("error", "loop_errors", "client_error")}, {**sig, "kind": "internal"})
                 continue
@@ -610,7 +646,7 @@ def gen_h2glue(rng, idx: int) -> dict:
             size = rng.choice([0, 1, 7, 50, 300])
             payload = (b"%d.%d|" % (sid, j) + bytes(rng.randrange(256) for _ in range(size)))[:max(size, 0)] if size else b""
             frames.append((payload, rng.choice([0, 0, 0, 5])))
-        plans.append({"sid": sid, "kind": kind, "path": rng.choice(["/", "/a/b?x=1&y=%ff", "/p%41th?%3F", "/q?"]), "frames": frames,
+        plans.append({"sid": sid, "kind": kind, "path": rng.choice(["/", "/a/b?x=1&y=%ff", "/p%41th?%3F", "/q?"] + ([rng.choice(UNUSUAL_TARGETS)] if rng.random() < 0.4 else [])), "frames": frames,
                       "ends": rng.random() < 0.8, "app": rng.choice(["reads", "reads", "early", "streaming", "silent"]),
                       "rst": rng.random() < 0.1, "hdr_sent": False, "sent": 0, "ended": False, "app_at": rng.choice(["start", "middle", "end"])})
     apps = {p["sid"]: list(GLUE_APPS[p["app"]]) for p in plans}
@@ -1022,7 +1058,7 @@ def run(ctx: Ctx) -> None:
     cases = []
     for i in range(ctx.budget(500, 15000)):
         n = rng.choice([1, 1, 2, 3])
-        opts = {"big": rng.random() < 0.3, "weights": [6, 5, 5, 1, 1, 1, 1, 0, 0, 0, 0]}
+        opts = {"big": rng.random() < 0.3, "weights": [6, 5, 5, 1, 1, 1, 1, 0, 0, 0, 0], "targets": C01_TARGETS}
         reqs = [HS.gen_request(rng, j, opts) for j in range(n)]
         apps = [HS.gen_app(rng, r, {"no_crash": True}) for r in reqs]
         cfg = gen_cfg(rng)
@@ -1030,7 +1066,8 @@ def run(ctx: Ctx) -> None:
         cases.append({"family": "direct", "requests": reqs, "apps": apps, "split": rng.choice(["one", "random", "random", "bytewise", "per_request"]),
                       "seed": rng.randrange(1 << 30), "cfg": cfg})
     corpus_direct, corpus_e2e = cfg_corpus()
-    check_direct(ctx, corpus_direct + cases)
+    targets_direct, targets_e2e = target_corpus()
+    check_direct(ctx, targets_direct + corpus_direct + cases)
     check_filter_pseudo(ctx, ctx.budget(400, 20000))
     sessions = [gen_e2e_session(ctx) for _ in range(ctx.budget(40, 1200))]
     # short sessions get every two-way split
@@ -1040,7 +1077,7 @@ def run(ctx: Ctx) -> None:
         s["requests"] = s["requests"][:1]
         r = s["requests"][0]
         r["body"], r["chunks"] = ("ab" if r["body"] or r["chunks"] else ""), None
-        r["target"] = "/p?q=1"
+        r["target"] = rng.choice(["/p?q=1", "/p?q=1", "//c/p;x?q=1#f?", "http://h/p?q=1"])
         r["headers"] = r["headers"][:2]
         shorts.append(s)
     # corpus: uploads larger than one 64 KiB read / than the HTTP/2 flow-control window, on both workers
@@ -1049,7 +1086,7 @@ def run(ctx: Ctx) -> None:
             sessions.append({"family": "e2e", "proto": proto, "worker": worker, "consumer": "slow", "seed": 7 + n,
                              "requests": [{"kind": "body_cl", "method": "POST", "target": "/up", "headers": [["Host", "x"]], "version": "1.1",
                                            "body": "u" * n, "chunks": None}]})
-    check_e2e(ctx, corpus_e2e + timing_corpus() + sessions, all_two_way=False)
+    check_e2e(ctx, targets_e2e + corpus_e2e + timing_corpus() + sessions, all_two_way=False)
     check_e2e(ctx, shorts, all_two_way=True)
     check_h2conn(ctx, h2conn_corpus() + [gen_h2conn(ctx) for _ in range(ctx.budget(30, 400))])
     check_h2glue(ctx, [gen_h2glue(rng, k) for k in range(ctx.budget(300, 6000))])
